@@ -181,6 +181,12 @@ impl Op {
 
 /// one call into the real code; `None` = it panicked
 fn run_op(cache: &Cache, op: Op) -> Option<String> {
+    // in-bounds requests of more than 16 MiB are not executed (never generated; guards replays)
+    if let Op::Read(o, n) | Op::Into(o, n) = op {
+        if n > (1 << 24) && o.checked_add(n).map_or(false, |e| e <= cache.len()) {
+            return Some("skip:too-large".to_string());
+        }
+    }
     catch_unwind(AssertUnwindSafe(|| match op {
         Op::Read(o, n) => match cache.read_bytes_at(o, n) {
             Ok(b) => show_bytes(b),
@@ -436,23 +442,23 @@ fn boundary_case(len: u64, pat: u64) -> Case {
     Case { name: format!("boundary-{len}-p{pat}"), ops }
 }
 
-/// the largest file length the theorems admit (`len + CHUNK_SIZE < 2^64`), over a virtual source: reads in
-/// the last chunks, at EOF, overflowing; (the excluded lengths `>= 2^64 - 32768` are in
-/// corpus/C13/excluded-file-len-near-u64-max.ops.disabled, see notes/C13.md)
-fn huge_case(pat: u64) -> Case {
-    let len = u64::MAX - CH; // 2^64 - 32769
+/// files whose length is within a few chunks of 2^64 (only possible with a synthetic source; here a virtual
+/// one): reads in the last chunks, at EOF, overflowing. Before 9c4312ce an in-bounds read ending in the last
+/// 32 KiB of a file with `len >= 2^64 - 32768` panicked (round_up_to_multiple overflow).
+fn huge_case(len: u64, pat: u64) -> Case {
     let g = Gen { len, seed: 5, pat, period: 300, bad_lo: 0, bad_hi: 0 };
     let mut ops = vec![g.line()];
     let mut p = |o: Op| ops.push(o.line());
     p(Op::Read(len - 47, 5));
     p(Op::Read(len - 7, 7));
     p(Op::Read(len - 7, 8));
-    p(Op::Read(len - CH - 3, 6)); // straddles the last chunk boundary
-    p(Op::Read(len - CH - 3, CH)); // start cached, extends to EOF
+    p(Op::Read(len - CH - 3, 6)); // straddles a chunk boundary (or not, depending on len)
+    p(Op::Read(len - CH - 3, CH)); // start cached, extends towards EOF
+    p(Op::Read(len - 2 * CH - 100, 2 * CH + 100)); // to EOF over three chunks
     p(Op::Read(len - 1, 1));
     p(Op::Read(len, 0));
     p(Op::Read(len, 1));
-    p(Op::Read(len - 1, CH + 2)); // offset + size overflows
+    p(Op::Read(len - 1, CH + 2)); // offset + size overflows (or is out of bounds)
     p(Op::Until(len - 900, len, 0));
     p(Op::Until(len - 900, len - 890, 0));
     p(Op::Until(len, len, 0));
@@ -461,7 +467,48 @@ fn huge_case(pat: u64) -> Case {
     p(Op::Read(1 << 40, 9));
     p(Op::Into(len - 5, 5));
     p(Op::Into(len - 5, 6));
-    Case { name: format!("huge-admitted-p{pat}"), ops }
+    Case { name: format!("huge-{len}-p{pat}"), ops }
+}
+
+fn gen_huge_case(rng: &mut Rng) -> Vec<String> {
+    let len = match rng.below(4) {
+        0 => u64::MAX,
+        1 => u64::MAX - CH + rng.below(3), // 2^64 - 32769 + {0,1,2}
+        _ => u64::MAX - rng.below(3 * CH),
+    };
+    let g = Gen { len, seed: rng.next_u64(), pat: *rng.pick(&[0u64, 1, 2]), period: rng.range(2, 600), bad_lo: 0, bad_hi: 0 };
+    let mut ops = vec![g.line()];
+    let mut prev: Vec<(u64, u64)> = Vec::new();
+    for _ in 0..rng.range(3, 25) {
+        let o = match rng.below(6) {
+            0 if !prev.is_empty() => {
+                let (o, n) = *rng.pick(&prev);
+                o.saturating_add(rng.below(n + 1))
+            }
+            1 => (len / CH).saturating_sub(rng.below(3)).saturating_mul(CH).saturating_sub(rng.below(20)),
+            2 => rng.below(1 << 20),
+            _ => len - rng.below(3 * CH),
+        };
+        let n = match rng.below(5) {
+            0 => len.saturating_sub(o),
+            1 => rng.range(1, 2 * CH),
+            2 => len.saturating_sub(o).saturating_add(rng.below(3)),
+            _ => rng.range(1, 100),
+        };
+        let n = if rng.chance(3, 4) { n.min(len.saturating_sub(o)).max(1) } else { n };
+        // an in-bounds request must stay executable (the model and the judge build the bytes as lists)
+        let n = if o.checked_add(n).map_or(false, |e| e <= len) && n > 3 * CH { rng.range(1, 2 * CH) } else { n };
+        match rng.below(5) {
+            0 => {
+                let hi = *rng.pick(&[len, o.saturating_add(n).min(len), o]);
+                ops.push(Op::Until(o, hi, if g.pat == 0 { rng.below(256) as u8 } else { 0 }).line())
+            }
+            1 if n < 4 * CH => ops.push(Op::Into(o, n).line()),
+            _ => ops.push(Op::Read(o, n).line()),
+        }
+        prev.push((o, n.min(4 * CH)));
+    }
+    ops
 }
 
 /// the repo's unit-test scenarios of the range planner, scaled to the real chunk size, on real bytes
@@ -518,11 +565,16 @@ impl Prop for C13 {
             v.push(boundary_case(len, 0));
         }
         v.extend(planner_cases());
-        v.push(huge_case(0));
-        v.push(huge_case(1));
+        for &len in &[u64::MAX, u64::MAX - CH + 1, u64::MAX - CH, u64::MAX - 3 * CH + 17] {
+            v.push(huge_case(len, 0));
+            v.push(huge_case(len, 1));
+        }
         v
     }
     fn generate(&self, rng: &mut Rng, tier: Tier, _index: u64) -> Vec<String> {
+        if rng.chance(1, 30) {
+            return gen_huge_case(rng);
+        }
         let g = gen_file(rng);
         let data = g.materialise().unwrap_or_default();
         let mut ops = vec![g.line()];
@@ -559,6 +611,7 @@ impl Prop for C13 {
             match g.len {
                 0 => "0".to_string(),
                 1 => "1".to_string(),
+                l if l > u64::MAX - 4 * CH => "near-2^64".to_string(),
                 l if l % CH == 0 => "k*chunk".to_string(),
                 l if l % CH == 1 => "k*chunk+1".to_string(),
                 l if l % CH == CH - 1 => "k*chunk-1".to_string(),
@@ -701,7 +754,7 @@ fn count_outcome(stats: &mut Stats, op: Op, line: &str, g: &Gen) {
                     if e == g.len {
                         stats.bump("read_ending_at_eof");
                     }
-                } else if e == g.len + 1 {
+                } else if Some(e) == g.len.checked_add(1) {
                     stats.bump("read_one_past_eof");
                 }
             } else {
